@@ -24,6 +24,10 @@ Line protocol of engine `aggregation` (one case per line, the whole operation se
                       flight is still pending, observation `P:<pending>/<in flight>`) `G0` (wait for the flushes in
                       flight, then close the gate; ignored while it is closed) `G1` (open the gate, wait for the flushes in flight, observation
                       `G:A[..]B[..]` = everything emitted since the last observation, all epochs together)
+           `cap`      toks `i=<input>`: a struct whose distribution fields use `SortAndMerge<0>`, `<1>`, `<2>` (inline
+                      capacity boundary); reply = the one distribution all of them must show
+           `keyonly`  toks `m=<input>` `f`: an `#[aggregate]` struct with a key and no aggregated field at all;
+                      reply per flush = the distinct endpoints
            `trace`    toks `in=<input>` … `out=<aggregate>` …   (T-trace: totals of a concurrent run)
 
   reply: observations joined by ` | `; an observation is what one flush emitted: aggregates
@@ -163,6 +167,25 @@ def handleTee (toks : List String) : String :=
   | some ops =>
     let s : TeeState := ops.foldl teeStepAll ({}, ({}, []))
     join (showTee s ++ [s!"raw={showRaw s.2.2}"])
+
+/-! ### degenerate shapes: inline capacity 0/1/2, no aggregated field -/
+
+def handleCap (toks : List String) : String :=
+  match toks.mapM fun t => match splitTok t with
+    | some ("i", e) => some e
+    | _ => none with
+  | none => "bad-op"
+  | some l => showDist (close (embedded callStrat l)).dist
+
+/-- the `Merge` impl of a struct without aggregated fields -/
+def unitStrat : Strat Input Unit := { empty := (), merge := fun _ _ => () }
+
+def handleKeyOnly (toks : List String) : String :=
+  match toks.mapM (parseKOp false) with
+  | none => "bad-op"
+  | some ops =>
+    let r := krun unitStrat keyB {} ops
+    join (r.emitted.map fun ep => showList (ep.map fun p => hex p.1))
 
 /-! ### embedded / mutex -/
 
@@ -394,6 +417,8 @@ def handle (line : String) : String :=
     else if p == "mutex" then handleMutex toks
     else if p == "worker" then handleWorker toks
     else if p == "gated" then handleGated toks
+    else if p == "cap" then handleCap toks
+    else if p == "keyonly" then handleKeyOnly toks
     else if p == "trace" then handleTrace toks
     else "bad-op"
 
